@@ -86,8 +86,8 @@ Shown(kind, txt) ==
 Catalog(cat)       == [keys |-> DOMAIN cat, at |-> cat]
 Has(C, fk, lang)   == fk \in C.keys /\ lang \in DOMAIN C.at[fk]
 Found(C, fk, lang) == Has(C, fk, lang) \/ Has(C, fk, "en")
-Entry(C, fk, lang) == IF Has(C, fk, lang) THEN C.at[fk][lang] ELSE C.at[fk]["en"]     \* when Found
-Text(C, fk, lang)  == Entry(C, fk, lang).c
+EntryOf(C, fk, lang) == IF Has(C, fk, lang) THEN C.at[fk][lang] ELSE C.at[fk]["en"]     \* when Found
+Text(C, fk, lang)  == EntryOf(C, fk, lang).c
 
 -----------------------------------------------------------------------------
 (* The contract on one catalog entry: every text non-empty; every translation *)
@@ -146,7 +146,7 @@ LookupFailures(C, shipped, r) ==
   LET fk == FullKey(r.kind, r.key, r.kc)
   IN  IF r.kind = "Err" /\ fk = "error.user.defined" THEN {}      \* shown through its context only (errors/format.go)
       ELSE {"lookup/" \o r.kind \o "/" \o fk \o "/" \o l :
-              l \in {x \in shipped : Found(C, fk, x) /\ ~ShowsEntry(r.kind, Entry(C, fk, x), r.out[x])}}
+              l \in {x \in shipped : Found(C, fk, x) /\ ~ShowsEntry(r.kind, EntryOf(C, fk, x), r.out[x])}}
 
 -----------------------------------------------------------------------------
 (* Accept-Language negotiation (internal/i18n/negotiate.go), as a function.   *)
